@@ -926,4 +926,19 @@ fn spawn_async_ao_list_in_task'''),
         ('background-error-surfaces-at-wait', 'brush-core/src/interp.rs', "                let _ = cloned_shell.display_error(&mut stderr, &error);\n                Ok(error.into_result(&cloned_shell))", "                let _ = cloned_shell.display_error(&mut stderr, &error);\n                Err(error)"),
         ('background-error-reported-as-success', 'brush-core/src/interp.rs', "                let _ = cloned_shell.display_error(&mut stderr, &error);\n                Ok(error.into_result(&cloned_shell))", "                let _ = cloned_shell.display_error(&mut stderr, &error);\n                Ok(ExecutionResult::success())"),
     ],
+    'U45': [
+        ('restart-answer-leaves-trap-delivery-blocked', 'brush-core/src/completion.rs', "        shell.release_trap_delivery_block();\n\n        // Make a best-effort", "        if !matches!(invoke_result, Ok(124)) { shell.release_trap_delivery_block(); }\n\n        // Make a best-effort"),
+        ('block-released-twice', 'brush-core/src/completion.rs', "        shell.release_trap_delivery_block();\n\n        // Make a best-effort", "        shell.release_trap_delivery_block();\n        shell.release_trap_delivery_block();\n\n        // Make a best-effort"),
+        ('block-never-released', 'brush-core/src/completion.rs', "        shell.release_trap_delivery_block();\n\n        // Make a best-effort", "        // Make a best-effort"),
+    ],
+    'U42': [
+        ('unsubscripted-array-reads-as-first-element', 'brush-core/src/variables.rs', "Self::IndexedArray(values) => values.get(&0).map(|s| Cow::Borrowed(s.as_str())),\n            Self::Dynamic { .. } => None,", "Self::IndexedArray(values) => values.values().next().map(|s| Cow::Borrowed(s.as_str())),\n            Self::Dynamic { .. } => None,"),
+        ('unsubscripted-array-reads-as-element-one', 'brush-core/src/variables.rs', "Self::IndexedArray(values) => values.get(&0).map(|s| Cow::Borrowed(s.as_str())),\n            Self::Dynamic { .. } => None,", "Self::IndexedArray(values) => values.get(&1).map(|s| Cow::Borrowed(s.as_str())),\n            Self::Dynamic { .. } => None,"),
+        ('declared-unset-reads-as-empty', 'brush-core/src/variables.rs', "            Self::Unset(_) => None,\n            Self::String(s) => Some(Cow::Borrowed(s.as_str())),\n            Self::AssociativeArray(values) => values.get(\"0\")", "            Self::Unset(_) => Some(Cow::Borrowed(\"\")),\n            Self::String(s) => Some(Cow::Borrowed(s.as_str())),\n            Self::AssociativeArray(values) => values.get(\"0\")"),
+    ],
+    'U43': [
+        ('keyed-element-value-is-split', 'brush-core/src/interp.rs', "                    let value =\n                        expansion::basic_expand_assignment_word(shell, params, unexpanded_value)\n                            .await?;\n                    elements.push((key, value));", "                    let mut values =\n                        expansion::full_expand_and_split_word(shell, params, unexpanded_value)\n                            .await?;\n                    let value = values.pop().unwrap_or_default();\n                    elements.push((key, value));"),
+        ('plain-elements-reversed', 'brush-core/src/interp.rs', "                    for value in values {\n                        elements.push((None, value));\n                    }", "                    for value in values {\n                        elements.insert(0, (None, value));\n                    }"),
+        ('value-expanded-before-key', 'brush-core/src/interp.rs', "                if key.is_some() {\n                    let value =\n                        expansion::basic_expand_assignment_word(shell, params, unexpanded_value)\n                            .await?;\n                    elements.push((key, value));", "                if key.is_some() {\n                    let value =\n                        expansion::basic_expand_assignment_word(shell, params, unexpanded_key.as_ref().unwrap())\n                            .await?;\n                    elements.push((key, value));"),
+    ],
 }
